@@ -46,6 +46,19 @@ class AParseError(AExc):
         return self._column_no
 
 
+class AExcClass(Abstract):
+    """`VisitationError.original_class`: the *class* of the wrapped exception - it has no `line`, no `column` ...: looking
+    one up is the AttributeError the evaluated program would meet"""
+
+    def __init__(self, name: str):
+        self.__dict__["__name__"] = name
+
+    def __getattr__(self, attr: str) -> Any:
+        if attr.startswith("__") or attr in ("_isa_", "_kind_"):
+            raise AttributeError(attr)
+        raise Raised("AttributeError", ast.Constant(value=attr))
+
+
 class AGrammar(Abstract):
     def __init__(self, m: Matcher):
         self.m = m
@@ -125,6 +138,10 @@ def _shared_job(i: int) -> Dict[str, Any]:
         return _SHARED["fe"].job(_SHARED["jobs"][i])
     except AnalysisError as ex:
         return {"analysis_error": str(ex)}
+    except Exception as ex:  # whatever it is, it must reach the parent as text (not every exception object can be pickled)
+        import traceback
+
+        return {"analysis_error": "evaluation failed: %r\n%s" % (ex, traceback.format_exc()[-1500:])}
 
 
 class FrontEnd:
@@ -195,7 +212,7 @@ class FrontEnd:
                 raise
             w = Raised("VisitationError", r.node)
             ex = AExc("VisitationError")
-            ex.__dict__["original_class"] = getattr(r, "exc", None) or AExc(r.cls_name)
+            ex.__dict__["original_class"] = AExcClass(r.cls_name)
             ex.__dict__["wrapped"] = r.cls_name
             w.exc = ex  # type: ignore
             w.wrapped = r.cls_name  # type: ignore
@@ -267,6 +284,12 @@ class FrontEnd:
             root = "/" + "/".join(first.strip("/").split("/")[:2])
             args = [APath(root), []]
         out: Dict[str, Any] = {"raised": None, "path": None, "line": None, "result": None, "text": None}
+        from .. import fold as _fold
+
+        del _fold.INT_STR_LIMIT_HITS[:]
+        from .. import absint as _absint
+
+        _absint.EVAL_MESSAGES.append(True)
         try:
             out["result"] = deep_call(lambda: call_fn(self.ctx, fn, args, kwargs or {}, hook=self.hook, keep=tuple(fn.module.functions)))
         except Raised as r:
@@ -285,6 +308,9 @@ class FrontEnd:
             raise AnalysisError("%s: the front end cannot be evaluated over these texts: %s" % (fn.short, ex))
         finally:
             APath.FS, APath.CWD, APath.STRICT = saved
+            _absint.EVAL_MESSAGES.pop()
+        if _fold.INT_STR_LIMIT_HITS:
+            out["int_str_limit"] = list(_fold.INT_STR_LIMIT_HITS)
         return out
 
     # ------------------------------------------------------------------ digests
@@ -380,7 +406,12 @@ class FrontEnd:
     def read(self, files: Dict[str, str], **kw: Any) -> Dict[str, Any]:
         """run + digests of the returned composites"""
         out = self.run(files, **kw)
-        deep_call(lambda: self._digests(out))
+        try:
+            deep_call(lambda: self._digests(out))
+        except Raised as r:
+            # the model was built but cannot be described (its own str() raises, e.g. for a value beyond the 4300-digit limit)
+            out["digest_error"] = r.cls_name
+            out.pop("types", None)
         return out
 
     # ------------------------------------------------------------------ many independent reads, on several cores
